@@ -1,20 +1,27 @@
-(* Correspondence for C09.  Two shapes of case (see harness/cmd/c09):
+(* Correspondence for C09.  A case is a history plus the positions of its test requests:
      lists:      admin deny A; admin allow B; list denied; list allowed; X; list denied; list allowed
      bystander:  good session; websocket join; status; X = deny by a principal without the scope; status;
-                 genuine admin deny; status
+                 genuine admin deny; status          (whole relay, wall clock)
+     histories:  steps on the admin / status endpoints drawn from a small pool of bearers (admin, stats, both,
+                 look-alike; long-lived, expiring, not yet valid - the same strings presented again after clock
+                 moves) and of booking ids / expiries, with list probes after each step
    every output must be the model's (projection in Access_common.v).
-   Non-trivial: every request of the case gets past router and authenticator and every websocket attempt
-   reaches the code exchange - in particular X is judged by a handler's scope check, not earlier. *)
+   Non-trivial: at least one test request gets past the router and the authenticator, so that it is judged by
+   a handler's scope check and not earlier. *)
 From Relay Require Import Base.Prelude Model.DenyStore Model.Token Model.Access Corr.Access_common.
 
-Definition case := Access_common.case.
-Definition case_ok : case -> bool := Access_common.case_ok.
+Definition case := (Access_common.case * list N)%type.
+Definition case_ok (c : case) : bool := Access_common.case_ok (fst c).
 
-Definition nacts (ops : list op) : N :=
-  count_true (fun o => match o with OReq _ | OWs _ _ _ => true | _ => false end) ops.
+Fixpoint reach_flags (cfg : config) (s : st) (ops : list op) : list bool :=
+  match ops with
+  | [] => []
+  | o :: r => reaches_handler cfg s o :: reach_flags cfg (fst (step cfg s o)) r
+  end.
 
 Definition case_nontrivial (c : case) : bool :=
-  let '(cfg, t, ops, _) := c in (count_reaching cfg (init t) ops =? nacts ops)%N.
+  let '((cfg, t, ops, _), idx) := c in
+  existsb (fun i => nth (N.to_nat i) (reach_flags cfg (init t) ops) false) idx.
 
 Definition mismatches (cs : list case) : list N := mismatch_idx case_ok 0 cs.
 Definition nontrivial (cs : list case) : list N := idx_where case_nontrivial cs.
